@@ -257,6 +257,7 @@ def run(ctx, chk):
     C07.r6_reversed_table(ctx, chk, "C13.pre:C07.6")        # the backward search must treat labels as opaque (an action named "" is an action)
     C03.r23(ctx, chk, "C13.pre:C03.2", "C13.pre:C03.3")     # a conditioning that merges or drops transitions depends on their order
     r2_consumers(ctx, chk)
+    shared.rule_node_keeps_transitions(ctx, chk, "C13.pre:C01.2")
     r34_opacity(ctx, chk)
     r5_pruning_order(ctx, chk)
     chk.require_instances("C13.1", 20)
